@@ -29,8 +29,8 @@ EXPLANATION = (
     "legacy obligations where dask hashes every literal (membership test against the key set), which concretises them. For fuse the "
     "four tuning parameters ave_width, max_width, max_height, max_depth_new_edges are symbolic ints in [0,4] passed explicitly: the "
     "solver forks exactly on the comparisons fuse makes ((num_nodes + fudge) / height <= ave_width is kept as an exact rational), so "
-    "every reachable behaviour over that parameter box is covered; rename_keys in {True, False, custom callable (colliding names and "
-    "None)}. Asserted per optimisation: (a) every requested key is in the returned graph, (b) its value equals the reference value, "
+    "every reachable behaviour over that parameter box is covered; rename_keys in {True, False, custom callable (proposes an existing "
+    "key, colliding fresh names, or None)}. Asserted per optimisation: (a) every requested key is in the returned graph, (b) its value equals the reference value, "
     "(c) a returned dependencies dict has the returned graph's keys and per key the dependencies recomputed with get_dependencies "
     "(as multisets when lists are returned, as sets otherwise). GraphNode.fuse: a chosen subset of nodes with one output is fused, the "
     "fused task replaces the output node and all keys keep their values; >1 outputs must raise ValueError. substitute: every dependency "
@@ -206,9 +206,14 @@ def pick_req(e, N, allow_empty):
 
 
 def custom_renamer(keys):
-    # collides between fused groups of equal size, and declines (None) for groups of three
+    # declines (None) for groups of three; for a group starting with a str key proposes the name of a key of the graph that is
+    # outside the group (the optimisers must notice the clash); otherwise a fresh name that is the same for all groups of equal size
     if len(keys) == 3:
         return None
+    if isinstance(keys[0], str):
+        for k in KEYS[:3]:
+            if k not in keys:
+                return k
     return ("fz", len(keys))
 
 
